@@ -801,3 +801,19 @@ BENIGN_TWINS = [
 MUTANTS += BENIGN_TWINS
 
 MUTANTS = [m for m in MUTANTS if not m.get("skip_if_missing")]
+
+# seeded regressions written by independent sub-agents (seeded/<id>/): kept as regression tests of the checkers
+import glob as _glob
+import json as _json
+import os as _os
+
+_SEEDED = _os.path.join(_os.path.dirname(_os.path.dirname(_os.path.abspath(__file__))), "seeded")
+for _meta in sorted(_glob.glob(_os.path.join(_SEEDED, "*", "meta.json"))):
+    try:
+        _m = _json.load(open(_meta))
+    except Exception:
+        continue
+    if _m.get("caught_by_target_property"):
+        MUTANTS.append(dict(id="seed-" + _m["id"], props=[_m["property"]], rule=None,
+                            patch=_os.path.join(_os.path.dirname(_meta), "patch.diff"), edits=[]))
+
